@@ -1,8 +1,103 @@
-(* Proofs/Objects_proofs.v — lemmas about Model/Objects.v (first stage: the
-   model of the tree as found, before the repair of get_fields_order). *)
+(* Proofs/Objects_proofs.v — lemmas about Model/Objects.v.
+
+   Plan: every lookup function of the model (find_field, has_visible_field,
+   get_fields_order) is shown equal to a function of one structural object, the
+   *effective chain* of a name: the Normal fields of that name met when walking
+   the layers from a start layer downwards and jumping over [depth] layers after
+   each Removed marker.  The algebraic laws (extension, removal) are then laws of
+   effective chains. *)
 From RJ Require Import Base.Outcome Model.Objects.
-From Coq Require Import Lia.
+From Coq Require Import Lia Sorted.
 Local Open Scope N_scope.
+
+(* ------------------------------------------------------------------ names *)
+
+Lemma name_compare_eq : forall a b, name_compare a b = Eq <-> a = b.
+Proof.
+  induction a as [|x a IH]; destruct b as [|y b]; cbn; split; intros H; try discriminate; auto.
+  - destruct (x ?= y) eqn:E; try discriminate.
+    apply N.compare_eq in E. apply IH in H. subst. reflexivity.
+  - injection H as -> ->. rewrite N.compare_refl. apply IH. reflexivity.
+Qed.
+
+Lemma name_compare_refl : forall a, name_compare a a = Eq.
+Proof. intros a. apply name_compare_eq. reflexivity. Qed.
+
+Lemma name_compare_antisym : forall a b, name_compare b a = CompOpp (name_compare a b).
+Proof.
+  induction a as [|x a IH]; destruct b as [|y b]; cbn; auto.
+  rewrite (N.compare_antisym x y). destruct (x ?= y); cbn; auto.
+Qed.
+
+Definition name_lt (a b : name) : Prop := name_compare a b = Lt.
+
+Lemma name_lt_trans : forall a b c, name_lt a b -> name_lt b c -> name_lt a c.
+Proof.
+  unfold name_lt. induction a as [|x a IH]; destruct b as [|y b]; destruct c as [|z c]; cbn; intros H1 H2;
+    try discriminate; auto.
+  destruct (x ?= y) eqn:E1; try discriminate; destruct (y ?= z) eqn:E2; try discriminate.
+  - apply N.compare_eq in E1, E2. subst. rewrite N.compare_refl. eauto.
+  - apply N.compare_eq in E1. subst. rewrite E2. reflexivity.
+  - apply N.compare_eq in E2. subst. rewrite E1. reflexivity.
+  - rewrite N.compare_lt_iff in E1, E2. assert (E : x < z) by lia.
+    rewrite <- N.compare_lt_iff in E. rewrite E. reflexivity.
+Qed.
+
+Lemma name_lt_irrefl : forall a, ~ name_lt a a.
+Proof. unfold name_lt. intros a H. rewrite name_compare_refl in H. discriminate. Qed.
+
+Lemma name_eqb_eq : forall a b, name_eqb a b = true <-> a = b.
+Proof.
+  intros a b. unfold name_eqb. rewrite <- name_compare_eq.
+  destruct (name_compare a b); split; intros H; auto; discriminate.
+Qed.
+
+Lemma name_eqb_refl : forall a, name_eqb a a = true.
+Proof. intros a. apply name_eqb_eq. reflexivity. Qed.
+
+Lemma name_eqb_neq : forall a b, name_eqb a b = false <-> a <> b.
+Proof.
+  intros a b. split.
+  - intros H E. apply name_eqb_eq in E. congruence.
+  - intros H. destruct (name_eqb a b) eqn:E; auto. apply name_eqb_eq in E. contradiction.
+Qed.
+
+(* ------------------------------------------------------------------ layers *)
+
+Definition wf_layer (l : layer) : Prop := NoDup (map fst l).
+Definition wf_obj (o : obj) : Prop := Forall wf_layer (layers o).
+
+Lemma layer_get_none : forall l n, ~ In n (map fst l) -> layer_get l n = None.
+Proof.
+  induction l as [|[k f] r IH]; cbn; intros n H; auto.
+  destruct (name_eqb k n) eqn:E.
+  - apply name_eqb_eq in E. subst. exfalso. apply H. left. reflexivity.
+  - apply IH. intros HI. apply H. right. exact HI.
+Qed.
+
+Lemma layer_get_in : forall l n f, layer_get l n = Some f -> In (n, f) l.
+Proof.
+  induction l as [|[k g] r IH]; cbn; intros n f H; try discriminate.
+  destruct (name_eqb k n) eqn:E.
+  - apply name_eqb_eq in E. injection H as ->. subst. left. reflexivity.
+  - right. apply IH. exact H.
+Qed.
+
+Lemma layers_extend : forall a b, layers (extend a b) = layers b ++ layers a.
+Proof. intros a b. unfold layers, extend. cbn. reflexivity. Qed.
+
+Lemma layers_length : forall o, length (layers o) = S (length (super_layers o)).
+Proof. reflexivity. Qed.
+
+Definition marker (o : obj) (n : name) : layer := [(n, Removed (N.of_nat (length (layers o))))].
+
+Lemma layers_remove_key : forall o n, layers (remove_key o n) = marker o n :: layers o.
+Proof.
+  intros o n. unfold layers, remove_key, marker. cbn [self_layer super_layers].
+  replace (N.of_nat (length (super_layers o)) + 1) with (N.of_nat (length (self_layer o :: super_layers o)))
+    by (cbn [length]; lia).
+  reflexivity.
+Qed.
 
 Lemma extend_assoc : forall a b c, extend (extend a b) c = extend a (extend b c).
 Proof.
@@ -10,16 +105,1106 @@ Proof.
   repeat rewrite <- app_assoc. reflexivity.
 Qed.
 
+Lemma wf_extend : forall a b, wf_obj a -> wf_obj b -> wf_obj (extend a b).
+Proof.
+  unfold wf_obj. intros a b Ha Hb. rewrite layers_extend. apply Forall_app. split; assumption.
+Qed.
+
+Lemma wf_remove_key : forall o n, wf_obj o -> wf_obj (remove_key o n).
+Proof.
+  unfold wf_obj. intros o n H. rewrite layers_remove_key. constructor; auto.
+  unfold wf_layer, marker. cbn. constructor; [intros [] | constructor].
+Qed.
+
+Lemma wf_empty : wf_obj empty_obj.
+Proof. unfold wf_obj, layers, empty_obj. cbn. constructor; [constructor | constructor]. Qed.
+
+(* ------------------------------------------------------------------ effective chains *)
+
+(* the Normal fields of [n] met from the head of [ls] (whose index is [idx]) downwards,
+   the first [skip] layers being hidden by a Removed marker above *)
+Fixpoint eff_chain (ls : list layer) (idx skip : N) (n : name) : list (N * fdata) :=
+  match ls with
+  | [] => []
+  | l :: r =>
+      if skip =? 0 then
+        match layer_get l n with
+        | Some (Normal d) => (idx, d) :: eff_chain r (idx + 1) 0 n
+        | Some (Removed depth) => eff_chain r (idx + 1) depth n
+        | None => eff_chain r (idx + 1) 0 n
+        end
+      else eff_chain r (idx + 1) (skip - 1) n
+  end.
+
+Definition chain (o : obj) (n : name) : list (N * fdata) := eff_chain (layers o) 0 0 n.
+
+Definition shift (k : N) (p : N * fdata) : N * fdata := (fst p + k, snd p).
+
+Lemma skipn_skipn' : forall A (l : list A) x y, skipn x (skipn y l) = skipn (y + x) l.
+Proof.
+  intros A l x y. revert l. induction y as [|y IH]; intros l; cbn [skipn plus]; auto.
+  destruct l; [rewrite skipn_nil; reflexivity | apply IH].
+Qed.
+
+Lemma nth_error_skipn' : forall A (l : list A) k i, nth_error (skipn k l) i = nth_error l (k + i).
+Proof.
+  intros A l k. revert l. induction k as [|k IH]; intros l i; cbn [skipn plus]; auto.
+  destruct l; [destruct i; reflexivity | apply IH].
+Qed.
+
+Lemma skipn_to_nat_succ : forall A (x : A) r s, s <> 0 ->
+  skipn (N.to_nat s) (x :: r) = skipn (N.to_nat (s - 1)) r.
+Proof.
+  intros A x r s H. replace (N.to_nat s) with (S (N.to_nat (s - 1))) by lia. reflexivity.
+Qed.
+
+Lemma eff_chain_skip : forall ls idx skip n,
+  eff_chain ls idx skip n = eff_chain (skipn (N.to_nat skip) ls) (idx + skip) 0 n.
+Proof.
+  induction ls as [|l r IH]; intros idx skip n.
+  - rewrite skipn_nil. reflexivity.
+  - destruct (N.eq_dec skip 0) as [->|Hs].
+    + cbn [N.to_nat skipn]. rewrite N.add_0_r. reflexivity.
+    + cbn [eff_chain]. apply N.eqb_neq in Hs as Hb. rewrite Hb.
+      rewrite skipn_to_nat_succ by exact Hs. rewrite IH. f_equal. lia.
+Qed.
+
+Lemma eff_chain_shift : forall ls idx skip k n,
+  eff_chain ls (idx + k) skip n = map (shift k) (eff_chain ls idx skip n).
+Proof.
+  induction ls as [|l r IH]; intros idx skip k n; cbn [eff_chain map]; auto.
+  replace (idx + k + 1) with (idx + 1 + k) by lia.
+  destruct (skip =? 0); [|apply IH].
+  destruct (layer_get l n) as [[d|depth]|]; cbn [map]; try apply IH.
+  f_equal. apply IH.
+Qed.
+
+Lemma eff_chain_index_ge : forall ls idx skip n p, In p (eff_chain ls idx skip n) -> idx <= fst p.
+Proof.
+  induction ls as [|l r IH]; intros idx skip n p H; cbn [eff_chain] in H; [contradiction|].
+  destruct (skip =? 0).
+  - destruct (layer_get l n) as [[d|depth]|].
+    + destruct H as [<-|H]; [cbn; lia | apply IH in H; lia].
+    + apply IH in H; lia.
+    + apply IH in H; lia.
+  - apply IH in H; lia.
+Qed.
+
+(* the chain lists, in order, fields stored under that name in that layer *)
+Lemma eff_chain_sound : forall ls idx skip n j d,
+  In (j, d) (eff_chain ls idx skip n) ->
+  exists l, nth_error ls (N.to_nat (j - idx)) = Some l /\ layer_get l n = Some (Normal d) /\ idx <= j.
+Proof.
+  induction ls as [|l r IH]; intros idx skip n j d H; cbn [eff_chain] in H; [contradiction|].
+  assert (step : In (j, d) (eff_chain r (idx + 1) (if skip =? 0 then match layer_get l n with Some (Removed depth) => depth | _ => 0 end else skip - 1) n) ->
+                 exists l0, nth_error (l :: r) (N.to_nat (j - idx)) = Some l0 /\ layer_get l0 n = Some (Normal d) /\ idx <= j).
+  { intros H'. apply IH in H'. destruct H' as (l0 & Hn & Hg & Hle). exists l0. repeat split; auto; try lia.
+    replace (N.to_nat (j - idx)) with (S (N.to_nat (j - (idx + 1)))) by lia. exact Hn. }
+  destruct (skip =? 0).
+  - destruct (layer_get l n) as [[d0|depth]|] eqn:G.
+    + destruct H as [E|H]; [|apply step; exact H].
+      injection E as <- <-. exists l. rewrite N.sub_diag. cbn. repeat split; auto. lia.
+    + apply step; exact H.
+    + apply step; exact H.
+  - apply step; exact H.
+Qed.
+
+Lemma eff_chain_app_closed : forall ls idx skip n,
+  eff_chain (ls ++ [[]]) idx skip n = eff_chain ls idx skip n.
+Proof.
+  induction ls as [|l r IH]; intros idx skip n; cbn [app eff_chain].
+  - cbn. destruct (skip =? 0); reflexivity.
+  - destruct (skip =? 0); [|apply IH].
+    destruct (layer_get l n) as [[d|depth]|]; try apply IH. f_equal. apply IH.
+Qed.
+
+Lemma eff_chain_skip_prefix : forall ls1 ls2 idx n,
+  eff_chain (ls1 ++ ls2) idx (N.of_nat (length ls1)) n = eff_chain ls2 (idx + N.of_nat (length ls1)) 0 n.
+Proof.
+  intros ls1 ls2 idx n. rewrite eff_chain_skip. rewrite Nat2N.id.
+  rewrite skipn_app, skipn_all, Nat.sub_diag. cbn [app skipn]. reflexivity.
+Qed.
+
+(* ------------------------------------------------------------------ find_field *)
+
+Lemma nthN_spec : forall A (l : list A) i,
+  nthN l i = nth_error l (N.to_nat i).
+Proof.
+  intros A l i. unfold nthN. destruct (N.of_nat (length l) <=? i) eqn:E; auto.
+  apply N.leb_le in E. symmetry. apply nth_error_None. lia.
+Qed.
+
+Lemma skipn_nth_error_cons : forall A (l : list A) k x,
+  nth_error l k = Some x -> skipn k l = x :: skipn (S k) l.
+Proof.
+  induction l as [|y r IH]; intros k x H; destruct k; cbn in *; try discriminate.
+  - injection H as ->. reflexivity.
+  - apply IH. exact H.
+Qed.
+
+Lemma find_loop_spec : forall fuel supers i n,
+  1 <= i -> (1 <= fuel)%nat -> (S (length supers) <= fuel + N.to_nat (i - 1))%nat ->
+  find_loop fuel supers i n = Ok (hd_error (eff_chain (skipn (N.to_nat (i - 1)) supers) i 0 n)).
+Proof.
+  induction fuel as [|fuel IH]; intros supers i n Hi Hf1 Hf; [lia|].
+  assert (Hlen : forall k x, nth_error supers k = Some x -> (k < length supers)%nat)
+    by (intros k x Hk; apply nth_error_Some; congruence).
+  - cbn [find_loop]. assert (Hz : (i =? 0) = false) by (apply N.eqb_neq; lia). rewrite Hz.
+    rewrite nthN_spec. destruct (nth_error supers (N.to_nat (i - 1))) as [layer|] eqn:Hn.
+    + rewrite (skipn_nth_error_cons _ _ _ _ Hn). cbn [eff_chain N.eqb].
+      destruct (layer_get layer n) as [[d|depth]|] eqn:G; cbn [hd_error]; auto.
+      * apply Hlen in Hn. rewrite IH by lia. f_equal. f_equal.
+        rewrite (eff_chain_skip _ (i + 1) depth). rewrite skipn_skipn'. f_equal; [|lia].
+        f_equal. lia.
+      * apply Hlen in Hn. rewrite IH by lia. f_equal. f_equal. f_equal. f_equal. lia.
+    + apply nth_error_None in Hn. rewrite skipn_all2 by lia. reflexivity.
+Qed.
+
+Theorem find_field_spec : forall o i n,
+  find_field o i n = Ok (hd_error (eff_chain (skipn (N.to_nat i) (layers o)) i 0 n)).
+Proof.
+  intros o i n. unfold find_field, loop_fuel, layers.
+  destruct (i =? 0) eqn:Hz.
+  - apply N.eqb_eq in Hz. subst i. cbn [N.to_nat skipn eff_chain N.eqb].
+    destruct (layer_get (self_layer o) n) as [[d|depth]|]; cbn [hd_error]; auto.
+    + rewrite find_loop_spec by lia. f_equal. f_equal.
+      rewrite (eff_chain_skip _ (0 + 1) depth). f_equal; [|lia]. f_equal. lia.
+    + rewrite find_loop_spec by lia. f_equal.
+  - apply N.eqb_neq in Hz. rewrite find_loop_spec by lia.
+    rewrite skipn_to_nat_succ by exact Hz. reflexivity.
+Qed.
+
+Corollary find_field_chain : forall o n, find_field o 0 n = Ok (hd_error (chain o n)).
+Proof. intros o n. rewrite find_field_spec. reflexivity. Qed.
+
+Corollary has_field_spec : forall o i n,
+  has_field o i n = Ok (match eff_chain (skipn (N.to_nat i) (layers o)) i 0 n with [] => false | _ => true end).
+Proof.
+  intros o i n. unfold has_field. rewrite find_field_spec. cbn [obind].
+  destruct (eff_chain _ _ _ _); reflexivity.
+Qed.
+
+(* what a successful lookup returns *)
+Theorem find_field_found : forall o i n j d,
+  find_field o i n = Ok (Some (j, d)) ->
+  i <= j /\ exists l, nth_error (layers o) (N.to_nat j) = Some l /\ layer_get l n = Some (Normal d).
+Proof.
+  intros o i n j d H. rewrite find_field_spec in H. injection H as H.
+  destruct (eff_chain (skipn (N.to_nat i) (layers o)) i 0 n) as [|p c] eqn:E; cbn in H; try discriminate.
+  injection H as ->. assert (HI : In (j, d) (eff_chain (skipn (N.to_nat i) (layers o)) i 0 n)) by (rewrite E; left; reflexivity).
+  apply eff_chain_sound in HI. destruct HI as (l & Hn & Hg & Hle). split; auto.
+  exists l. split; auto. rewrite nth_error_skipn' in Hn. rewrite <- Hn. f_equal. lia.
+Qed.
+
+(* a lookup started at layer i+1 (super, seen from layer i) never consults layers <= i *)
+Theorem super_starts_left : forall o o' i n,
+  skipn (S (N.to_nat i)) (layers o) = skipn (S (N.to_nat i)) (layers o') ->
+  find_field o (i + 1) n = find_field o' (i + 1) n.
+Proof.
+  intros o o' i n H. rewrite !find_field_spec.
+  replace (N.to_nat (i + 1)) with (S (N.to_nat i)) by lia. rewrite H. reflexivity.
+Qed.
+
+(* ------------------------------------------------------------------ visibility *)
+
+(* the `:` `::` `:::` rule, from base to derived: a derived field of default
+   visibility keeps the visibility it inherits *)
+Definition inherit (base derived : vis) : vis :=
+  match derived with Default => base | v => v end.
+
+(* [top_down]: visibilities of the effective chain, most derived first *)
+Definition resolve (top_down : list vis) : option vis :=
+  match rev top_down with
+  | [] => None
+  | b :: r => Some (fold_left inherit r b)
+  end.
+
+Definition visible_of (r : option vis) : bool :=
+  match r with
+  | None => false
+  | Some Hidden => false
+  | Some _ => true
+  end.
+
+Definition chain_vis (c : list (N * fdata)) : list vis := map (fun p => f_vis (snd p)) c.
+
+Lemma resolve_cons : forall v c,
+  resolve (v :: c) = Some (match v with
+                           | Default => match resolve c with Some x => x | None => Default end
+                           | _ => v
+                           end).
+Proof.
+  intros v c. unfold resolve. cbn [rev]. destruct (rev c) as [|b r]; cbn [app].
+  - cbn. destruct v; reflexivity.
+  - rewrite fold_left_app. cbn [fold_left]. unfold inherit at 1. destruct v; reflexivity.
+Qed.
+
+Lemma resolve_nil : resolve [] = None.
+Proof. reflexivity. Qed.
+
+Lemma resolve_none : forall c, resolve c = None <-> c = [].
+Proof.
+  intros c. split; [|intros ->; reflexivity].
+  destruct c; auto. rewrite resolve_cons. discriminate.
+Qed.
+
+(* has_visible_field's walk: most derived first, with the [found] flag *)
+Fixpoint vis_walk (c : list vis) (found : bool) : bool :=
+  match c with
+  | [] => found
+  | Default :: r => vis_walk r true
+  | Hidden :: _ => false
+  | ForceVisible :: _ => true
+  end.
+
+Lemma vis_walk_resolve : forall c found,
+  vis_walk c found = match resolve c with None => found | Some v => visible_of (Some v) end.
+Proof.
+  induction c as [|v c IH]; intros found; auto.
+  rewrite resolve_cons. destruct v; cbn [vis_walk]; auto.
+  rewrite IH. destruct (resolve c) as [x|]; reflexivity.
+Qed.
+
+Lemma hv_loop_spec : forall fuel supers i n found,
+  1 <= i -> (1 <= fuel)%nat -> (S (length supers) <= fuel + N.to_nat (i - 1))%nat ->
+  hv_loop fuel supers i n found =
+  Ok (vis_walk (chain_vis (eff_chain (skipn (N.to_nat (i - 1)) supers) i 0 n)) found).
+Proof.
+  induction fuel as [|fuel IH]; intros supers i n found Hi Hf1 Hf; [lia|].
+  assert (Hlen : forall k x, nth_error supers k = Some x -> (k < length supers)%nat)
+    by (intros k x Hk; apply nth_error_Some; congruence).
+  cbn [hv_loop]. assert (Hz : (i =? 0) = false) by (apply N.eqb_neq; lia). rewrite Hz.
+  rewrite nthN_spec. destruct (nth_error supers (N.to_nat (i - 1))) as [layer|] eqn:Hn.
+  - rewrite (skipn_nth_error_cons _ _ _ _ Hn). cbn [eff_chain N.eqb]. apply Hlen in Hn.
+    destruct (layer_get layer n) as [[d|depth]|] eqn:G.
+    + cbn [chain_vis map snd vis_walk]. destruct (f_vis d); auto.
+      rewrite IH by lia. replace (N.to_nat (i + 1 - 1)) with (S (N.to_nat (i - 1))) by lia. reflexivity.
+    + rewrite IH by lia.
+      rewrite (eff_chain_skip _ (i + 1) depth). rewrite skipn_skipn'.
+      replace (N.to_nat (i + depth + 1 - 1)) with (S (N.to_nat (i - 1)) + N.to_nat depth)%nat by lia.
+      replace (i + 1 + depth) with (i + depth + 1) by lia. reflexivity.
+    + rewrite IH by lia. replace (N.to_nat (i + 1 - 1)) with (S (N.to_nat (i - 1))) by lia. reflexivity.
+  - apply nth_error_None in Hn. rewrite skipn_all2 by lia. reflexivity.
+Qed.
+
+Lemma has_visible_field_walk : forall o n,
+  has_visible_field o n = Ok (vis_walk (chain_vis (chain o n)) false).
+Proof.
+  intros o n. unfold has_visible_field, chain, layers, loop_fuel. cbn [eff_chain N.eqb].
+  destruct (layer_get (self_layer o) n) as [[d|depth]|].
+  - cbn [chain_vis map snd vis_walk]. destruct (f_vis d); auto.
+    rewrite hv_loop_spec by lia. reflexivity.
+  - rewrite hv_loop_spec by lia.
+    rewrite (eff_chain_skip _ (0 + 1) depth).
+    replace (N.to_nat (0 + depth + 1 - 1)) with (N.to_nat depth) by lia.
+    replace (0 + 1 + depth) with (0 + depth + 1) by lia. reflexivity.
+  - rewrite hv_loop_spec by lia. reflexivity.
+Qed.
+
+Theorem visibility_rule : forall o n,
+  has_visible_field o n = Ok (visible_of (resolve (chain_vis (chain o n)))).
+Proof.
+  intros o n. rewrite has_visible_field_walk, vis_walk_resolve.
+  destruct (resolve (chain_vis (chain o n))); reflexivity.
+Qed.
+
+(* ------------------------------------------------------------------ the BTreeMap *)
+
+Lemma bt_get_set_same : forall m n s, bt_get (bt_set m n s) n = Some s.
+Proof.
+  induction m as [|[k v] r IH]; intros n s; cbn [bt_set bt_get].
+  - rewrite name_eqb_refl. reflexivity.
+  - destruct (name_compare n k) eqn:C; cbn [bt_get].
+    + rewrite name_eqb_refl. reflexivity.
+    + rewrite name_eqb_refl. reflexivity.
+    + assert (name_eqb k n = false).
+      { apply name_eqb_neq. intros ->. rewrite name_compare_refl in C. discriminate. }
+      rewrite H. apply IH.
+Qed.
+
+Lemma bt_get_set_other : forall m n s k, k <> n -> bt_get (bt_set m n s) k = bt_get m k.
+Proof.
+  induction m as [|[k0 v] r IH]; intros n s k Hk; cbn [bt_set bt_get].
+  - assert (name_eqb n k = false) by (apply name_eqb_neq; congruence). rewrite H. reflexivity.
+  - destruct (name_compare n k0) eqn:C; cbn [bt_get].
+    + apply name_compare_eq in C. subst k0.
+      assert (name_eqb n k = false) by (apply name_eqb_neq; congruence). rewrite H. reflexivity.
+    + assert (name_eqb n k = false) by (apply name_eqb_neq; congruence). rewrite H. reflexivity.
+    + destruct (name_eqb k0 k); auto.
+Qed.
+
+Definition bt_sorted (m : btmap) : Prop := StronglySorted name_lt (map fst m).
+
+Lemma bt_set_keys : forall m n s k, In k (map fst (bt_set m n s)) -> k = n \/ In k (map fst m).
+Proof.
+  induction m as [|[k0 v] r IH]; intros n s k H; cbn [bt_set] in H.
+  - destruct H as [<-|[]]. left. reflexivity.
+  - destruct (name_compare n k0) eqn:C; cbn [map fst In] in *.
+    + destruct H as [<-|H]; auto.
+    + destruct H as [<-|H]; auto.
+    + destruct H as [<-|H]; auto. apply IH in H. destruct H; auto.
+Qed.
+
+Lemma bt_set_sorted : forall m n s, bt_sorted m -> bt_sorted (bt_set m n s).
+Proof.
+  unfold bt_sorted. induction m as [|[k v] r IH]; intros n s H; cbn [bt_set map fst].
+  - constructor; constructor.
+  - cbn [map fst] in H. apply StronglySorted_inv in H. destruct H as [Hr Hk].
+    destruct (name_compare n k) eqn:C; cbn [map fst].
+    + apply name_compare_eq in C. subst k. constructor; assumption.
+    + constructor; [constructor; assumption|]. constructor; [exact C|].
+      rewrite Forall_forall in *. intros x Hx. eapply name_lt_trans; [exact C | apply Hk; exact Hx].
+    + constructor; [apply IH; exact Hr|]. rewrite Forall_forall in *. intros x Hx.
+      apply bt_set_keys in Hx. destruct Hx as [->|Hx]; [|apply Hk; exact Hx].
+      unfold name_lt. rewrite name_compare_antisym, C. reflexivity.
+Qed.
+
+Lemma sorted_nodup : forall l, StronglySorted name_lt l -> NoDup l.
+Proof.
+  induction l as [|x r IH]; intros H; constructor.
+  - apply StronglySorted_inv in H. destruct H as [_ Hk]. intros HI.
+    rewrite Forall_forall in Hk. apply Hk in HI. exact (name_lt_irrefl _ HI).
+  - apply IH. apply StronglySorted_inv in H. tauto.
+Qed.
+
+Lemma bt_get_in : forall m n s, bt_get m n = Some s -> In (n, s) m.
+Proof.
+  induction m as [|[k v] r IH]; cbn [bt_get]; intros n s H; try discriminate.
+  destruct (name_eqb k n) eqn:E.
+  - apply name_eqb_eq in E. injection H as ->. subst. left. reflexivity.
+  - right. apply IH. exact H.
+Qed.
+
+Lemma bt_in_get : forall m n s, NoDup (map fst m) -> In (n, s) m -> bt_get m n = Some s.
+Proof.
+  induction m as [|[k v] r IH]; cbn [bt_get map fst]; intros n s Hd HI; [contradiction|].
+  apply NoDup_cons_iff in Hd. destruct Hd as [Hk Hd]. destruct HI as [E|HI].
+  - injection E as -> ->. rewrite name_eqb_refl. reflexivity.
+  - destruct (name_eqb k n) eqn:E.
+    + apply name_eqb_eq in E. subst k. exfalso. apply Hk. apply (in_map fst) in HI. exact HI.
+    + apply IH; assumption.
+Qed.
+
+(* ------------------------------------------------------------------ get_fields_order, per name *)
+
+(* the Vacant / Occupied arms as a transition of one name's state *)
+Definition step (st : option fstate) (layer_i : N) (f : field) : option fstate :=
+  match st with
+  | None => Some (field_to_state f layer_i)
+  | Some (SNormal Default sk) =>
+      if sk <? layer_i then
+        match f with
+        | Normal d => Some (SNormal (f_vis d) 0)
+        | Removed depth => Some (SNormal Default (layer_i + depth))
+        end
+      else st
+  | Some (SNormal _ _) => st
+  | Some (SRemoved r) => if r <? layer_i then Some (field_to_state f layer_i) else st
+  end.
+
+Fixpoint name_state (ls : list layer) (i : N) (st : option fstate) (n : name) : option fstate :=
+  match ls with
+  | [] => st
+  | l :: r => name_state r (i + 1) (match layer_get l n with Some f => step st i f | None => st end) n
+  end.
+
+Lemma merge_entry_same : forall i m n f, bt_get (merge_entry i m (n, f)) n = step (bt_get m n) i f.
+Proof.
+  intros i m n f. unfold merge_entry, step.
+  destruct (bt_get m n) as [[v sk|r]|] eqn:G.
+  - destruct v; try (rewrite G; reflexivity).
+    destruct (sk <? i); [|rewrite G; reflexivity].
+    destruct f; apply bt_get_set_same.
+  - destruct (r <? i); [apply bt_get_set_same | rewrite G; reflexivity].
+  - apply bt_get_set_same.
+Qed.
+
+Lemma merge_entry_other : forall i m n f k, k <> n -> bt_get (merge_entry i m (n, f)) k = bt_get m k.
+Proof.
+  intros i m n f k Hk. unfold merge_entry.
+  destruct (bt_get m n) as [[v sk|r]|].
+  - destruct v; auto. destruct (sk <? i); auto. destruct f; apply bt_get_set_other; exact Hk.
+  - destruct (r <? i); auto. apply bt_get_set_other; exact Hk.
+  - apply bt_get_set_other; exact Hk.
+Qed.
+
+Lemma merge_entry_sorted : forall i m nf, bt_sorted m -> bt_sorted (merge_entry i m nf).
+Proof.
+  intros i m [n f] H. unfold merge_entry.
+  destruct (bt_get m n) as [[v sk|r]|].
+  - destruct v; auto. destruct (sk <? i); auto. destruct f; apply bt_set_sorted; exact H.
+  - destruct (r <? i); auto. apply bt_set_sorted; exact H.
+  - apply bt_set_sorted; exact H.
+Qed.
+
+(* iteration over a hash map with unique keys: only the entry of [n] matters for [n] *)
+Lemma fold_layer_get : forall i l m n, wf_layer l ->
+  bt_get (fold_left (merge_entry i) l m) n =
+  match layer_get l n with Some f => step (bt_get m n) i f | None => bt_get m n end.
+Proof.
+  induction l as [|[k f] r IH]; intros m n Hwf; cbn [fold_left layer_get]; auto.
+  unfold wf_layer in Hwf. cbn [map fst] in Hwf. apply NoDup_cons_iff in Hwf. destruct Hwf as [Hk Hr].
+  rewrite IH by exact Hr. destruct (name_eqb k n) eqn:E.
+  - apply name_eqb_eq in E. subst k. rewrite (layer_get_none r n Hk). apply merge_entry_same.
+  - apply name_eqb_neq in E. rewrite merge_entry_other by congruence. reflexivity.
+Qed.
+
+Lemma fold_layer_sorted : forall i l m, bt_sorted m -> bt_sorted (fold_left (merge_entry i) l m).
+Proof.
+  induction l as [|nf r IH]; intros m H; cbn [fold_left]; auto. apply IH. apply merge_entry_sorted. exact H.
+Qed.
+
+Lemma merge_layers_get : forall ls i m n, Forall wf_layer ls ->
+  bt_get (merge_layers m i ls) n = name_state ls i (bt_get m n) n.
+Proof.
+  induction ls as [|l r IH]; intros i m n H; cbn [merge_layers name_state]; auto.
+  apply Forall_cons_iff in H. destruct H as [Hl Hr].
+  rewrite IH by exact Hr. rewrite fold_layer_get by exact Hl. reflexivity.
+Qed.
+
+Lemma merge_layers_sorted : forall ls i m, bt_sorted m -> bt_sorted (merge_layers m i ls).
+Proof.
+  induction ls as [|l r IH]; intros i m H; cbn [merge_layers]; auto. apply IH. apply fold_layer_sorted. exact H.
+Qed.
+
+Definition self_entry (m : btmap) (nf : name * field) : btmap := bt_set m (fst nf) (field_to_state (snd nf) 0).
+
+Lemma fold_self_get : forall l m n, wf_layer l ->
+  bt_get (fold_left self_entry l m) n =
+  match layer_get l n with Some f => Some (field_to_state f 0) | None => bt_get m n end.
+Proof.
+  induction l as [|[k f] r IH]; intros m n Hwf; cbn [fold_left layer_get]; auto.
+  unfold wf_layer in Hwf. cbn [map fst] in Hwf. apply NoDup_cons_iff in Hwf. destruct Hwf as [Hk Hr].
+  rewrite IH by exact Hr. destruct (name_eqb k n) eqn:E.
+  - apply name_eqb_eq in E. subst k. rewrite (layer_get_none r n Hk). unfold self_entry. cbn [fst snd].
+    apply bt_get_set_same.
+  - apply name_eqb_neq in E. unfold self_entry. cbn [fst snd]. rewrite bt_get_set_other by congruence. reflexivity.
+Qed.
+
+Lemma fold_self_sorted : forall l m, bt_sorted m -> bt_sorted (fold_left self_entry l m).
+Proof.
+  induction l as [|nf r IH]; intros m H; cbn [fold_left]; auto. apply IH. apply bt_set_sorted. exact H.
+Qed.
+
+Lemma all_fields_sorted : forall o, bt_sorted (all_fields o).
+Proof.
+  intros o. unfold all_fields. apply merge_layers_sorted. apply fold_self_sorted. constructor.
+Qed.
+
+Lemma all_fields_get : forall o n, wf_obj o -> bt_get (all_fields o) n = name_state (layers o) 0 None n.
+Proof.
+  intros o n H. unfold wf_obj, layers in H. apply Forall_cons_iff in H. destruct H as [Hs Hr].
+  unfold all_fields. rewrite merge_layers_get by exact Hr.
+  change (fun (m : btmap) (nf : name * field) => bt_set m (fst nf) (field_to_state (snd nf) 0)) with self_entry.
+  rewrite fold_self_get by exact Hs. unfold layers. cbn [name_state bt_get].
+  destruct (layer_get (self_layer o) n); reflexivity.
+Qed.
+
+(* the state of a name against its effective chain *)
+Definition final_vis (st : option fstate) : option vis :=
+  match st with Some (SNormal v _) => Some v | _ => None end.
+
+Definition st_res (st : option fstate) (c : list vis) : option vis :=
+  match st with
+  | None | Some (SRemoved _) => resolve c
+  | Some (SNormal Default _) => resolve (Default :: c)
+  | Some (SNormal v _) => Some v
+  end.
+
+Definition st_skip (st : option fstate) (i : N) : N :=
+  match st with
+  | None => 0
+  | Some (SRemoved r) => r + 1 - i
+  | Some (SNormal _ sk) => sk + 1 - i
+  end.
+
+Ltac norm_skip i :=
+  repeat match goal with
+  | |- context [0 + 1 - (i + 1)] => replace (0 + 1 - (i + 1)) with 0 by lia
+  | |- context [i + ?d + 1 - (i + 1)] => replace (i + d + 1 - (i + 1)) with d by lia
+  end.
+
+Lemma name_state_chain : forall ls i st n,
+  final_vis (name_state ls i st n) = st_res st (chain_vis (eff_chain ls i (st_skip st i) n)).
+Proof.
+  induction ls as [|l r IH]; intros i st n.
+  - cbn [name_state eff_chain chain_vis map]. destruct st as [[v sk|rr]|]; cbn; auto. destruct v; reflexivity.
+  - cbn [name_state]. rewrite IH. cbn [eff_chain].
+    destruct st as [[v sk|rr]|]; cbn [st_skip].
+    + (* SNormal *)
+      destruct (sk + 1 - i =? 0) eqn:Z.
+      * apply N.eqb_eq in Z. assert (Hlt : (sk <? i) = true) by (apply N.ltb_lt; lia).
+        destruct (layer_get l n) as [[d|depth]|] eqn:G; cbn [step].
+        -- destruct v; try reflexivity.
+           rewrite Hlt. cbn [st_res st_skip]. norm_skip i. unfold chain_vis. cbn [map snd].
+           rewrite ?resolve_cons. destruct (f_vis d); rewrite ?resolve_cons; reflexivity.
+        -- destruct v; try reflexivity.
+           rewrite Hlt. cbn [st_res st_skip]. norm_skip i. reflexivity.
+        -- destruct v; try reflexivity. cbn [st_res st_skip].
+           replace (sk + 1 - (i + 1)) with 0 by lia. reflexivity.
+      * apply N.eqb_neq in Z. assert (Hlt : (sk <? i) = false) by (apply N.ltb_ge; lia).
+        assert (Hst : match layer_get l n with Some f => step (Some (SNormal v sk)) i f | None => Some (SNormal v sk) end
+                      = Some (SNormal v sk)).
+        { destruct (layer_get l n); auto. cbn [step]. destruct v; auto. rewrite Hlt. reflexivity. }
+        rewrite Hst. cbn [st_skip]. replace (sk + 1 - (i + 1)) with (sk + 1 - i - 1) by lia. reflexivity.
+    + (* SRemoved *)
+      destruct (rr + 1 - i =? 0) eqn:Z.
+      * apply N.eqb_eq in Z. assert (Hlt : (rr <? i) = true) by (apply N.ltb_lt; lia).
+        destruct (layer_get l n) as [[d|depth]|] eqn:G; cbn [step].
+        -- rewrite Hlt. cbn [field_to_state st_res st_skip]. norm_skip i. unfold chain_vis. cbn [map snd].
+           rewrite ?resolve_cons. destruct (f_vis d); rewrite ?resolve_cons; reflexivity.
+        -- rewrite Hlt. cbn [field_to_state st_res st_skip]. norm_skip i. reflexivity.
+        -- cbn [st_res st_skip]. replace (rr + 1 - (i + 1)) with 0 by lia. reflexivity.
+      * apply N.eqb_neq in Z. assert (Hlt : (rr <? i) = false) by (apply N.ltb_ge; lia).
+        assert (Hst : match layer_get l n with Some f => step (Some (SRemoved rr)) i f | None => Some (SRemoved rr) end
+                      = Some (SRemoved rr)).
+        { destruct (layer_get l n); auto. cbn [step]. rewrite Hlt. reflexivity. }
+        rewrite Hst. cbn [st_res st_skip]. replace (rr + 1 - (i + 1)) with (rr + 1 - i - 1) by lia. reflexivity.
+    + (* nothing yet *)
+      cbn [N.eqb]. destruct (layer_get l n) as [[d|depth]|] eqn:G; cbn [step field_to_state].
+      * cbn [st_res st_skip]. norm_skip i. unfold chain_vis. cbn [map snd].
+        rewrite ?resolve_cons. destruct (f_vis d); rewrite ?resolve_cons; reflexivity.
+      * cbn [st_res st_skip]. norm_skip i. reflexivity.
+      * reflexivity.
+Qed.
+
+(* the recorded visibility of a name is the `:` `::` `:::` rule over its effective chain *)
+Theorem fields_order_entry : forall o n v, wf_obj o ->
+  (In (n, v) (get_fields_order o) <-> resolve (chain_vis (chain o n)) = Some v).
+Proof.
+  intros o n v Hwf.
+  pose proof (all_fields_sorted o) as Hs. pose proof (sorted_nodup _ Hs) as Hd.
+  pose proof (all_fields_get o n Hwf) as Hg.
+  pose proof (name_state_chain (layers o) 0 None n) as Hc. cbn [st_skip st_res] in Hc.
+  fold (chain o n) in Hc. rewrite <- Hg in Hc. rewrite <- Hc. clear Hc Hg.
+  unfold get_fields_order. generalize dependent (all_fields o). intros m _ Hd.
+  split.
+  - intros HI. assert (exists sk, In (n, SNormal v sk) m) as [sk Hm].
+    { clear Hd. induction m as [|[k s] r IH]; cbn [filter_map] in HI; [contradiction|].
+      destruct s as [v0 sk0|rr]; cbn [state_entry] in HI.
+      - destruct HI as [E|HI]; [injection E as -> ->; exists sk0; left; reflexivity|].
+        destruct (IH HI) as [sk Hx]. exists sk. right. exact Hx.
+      - destruct (IH HI) as [sk Hx]. exists sk. right. exact Hx. }
+    rewrite (bt_in_get _ _ _ Hd Hm). reflexivity.
+  - intros Hf. destruct (bt_get m n) as [[v0 sk|rr]|] eqn:G; cbn [final_vis] in Hf; try discriminate.
+    injection Hf as ->. apply bt_get_in in G. clear Hd.
+    induction m as [|[k s] r IH]; [contradiction|]. cbn [filter_map]. destruct G as [E|G].
+    + injection E as -> ->. cbn [state_entry]. left. reflexivity.
+    + destruct (state_entry (k, s)); [right|]; apply IH; exact G.
+Qed.
+
+Lemma filter_map_keys_sorted : forall (m : btmap),
+  StronglySorted name_lt (map fst m) -> StronglySorted name_lt (map fst (filter_map state_entry m)).
+Proof.
+  induction m as [|[k s] r IH]; intros H; cbn [filter_map map]; [constructor|].
+  cbn [map fst] in H. apply StronglySorted_inv in H. destruct H as [Hr Hk].
+  destruct s as [v sk|rr]; cbn [state_entry]; [|apply IH; exact Hr].
+  cbn [map fst]. constructor; [apply IH; exact Hr|].
+  rewrite Forall_forall in *. intros x Hx. apply Hk.
+  clear -Hx. induction r as [|[k' s'] r IH]; cbn [filter_map map] in Hx; [contradiction|].
+  destruct s'; cbn [state_entry map fst] in Hx.
+  - destruct Hx as [<-|Hx]; [left; reflexivity | right; apply IH; exact Hx].
+  - right. apply IH. exact Hx.
+Qed.
+
+Theorem fields_order_sorted : forall o, StronglySorted name_lt (map fst (get_fields_order o)).
+Proof. intros o. apply filter_map_keys_sorted. apply all_fields_sorted. Qed.
+
+Lemma visible_sublist_sorted : forall (l : list (name * vis)),
+  StronglySorted name_lt (map fst l) ->
+  StronglySorted name_lt
+    (filter_map (fun nv : name * vis => match snd nv with Hidden => None | _ => Some (fst nv) end) l).
+Proof.
+  induction l as [|[k v] r IH]; intros H; cbn [filter_map]; [constructor|].
+  cbn [map fst] in H. apply StronglySorted_inv in H. destruct H as [Hr Hk].
+  assert (Hsub : forall x, In x (filter_map (fun nv : name * vis => match snd nv with Hidden => None | _ => Some (fst nv) end) r) -> In x (map fst r)).
+  { clear. induction r as [|[k' v'] r IH]; cbn [filter_map]; intros x Hx; [contradiction|].
+    destruct v'; cbn [snd fst] in Hx; cbn [map fst].
+    - destruct Hx as [<-|Hx]; [left; reflexivity | right; apply IH; exact Hx].
+    - right. apply IH. exact Hx.
+    - destruct Hx as [<-|Hx]; [left; reflexivity | right; apply IH; exact Hx]. }
+  destruct v; cbn [snd fst]; try (apply IH; exact Hr);
+    (constructor; [apply IH; exact Hr|]; rewrite Forall_forall in *; intros x Hx; apply Hk; apply Hsub; exact Hx).
+Qed.
+
+Theorem visible_fields_order_sorted : forall o, StronglySorted name_lt (get_visible_fields_order o).
+Proof. intros o. apply visible_sublist_sorted. apply fields_order_sorted. Qed.
+
+Lemma in_visible_iff : forall (l : list (name * vis)) n,
+  In n (filter_map (fun nv : name * vis => match snd nv with Hidden => None | _ => Some (fst nv) end) l) <->
+  exists v, In (n, v) l /\ v <> Hidden.
+Proof.
+  induction l as [|[k v] r IH]; intros n; cbn [filter_map].
+  - split; [contradiction | intros (v & [] & _)].
+  - destruct v; cbn [snd fst].
+    + split.
+      * intros [<-|H]; [exists Default; split; [left; reflexivity | discriminate]|].
+        apply IH in H. destruct H as (v & H & Hv). exists v. split; [right; exact H | exact Hv].
+      * intros (v & [E|H] & Hv); [injection E as -> <-; left; reflexivity|]. right. apply IH. exists v. tauto.
+    + rewrite IH. split.
+      * intros (v & H & Hv). exists v. split; [right; exact H | exact Hv].
+      * intros (v & [E|H] & Hv); [injection E as -> <-; contradiction|]. exists v. tauto.
+    + split.
+      * intros [<-|H]; [exists ForceVisible; split; [left; reflexivity | discriminate]|].
+        apply IH in H. destruct H as (v & H & Hv). exists v. split; [right; exact H | exact Hv].
+      * intros (v & [E|H] & Hv); [injection E as -> <-; left; reflexivity|]. right. apply IH. exists v. tauto.
+Qed.
+
+(* get_fields_order lists exactly the names find_field finds ... *)
+Theorem fields_order_agree : forall o n, wf_obj o ->
+  (In n (map fst (get_fields_order o)) <-> exists j d, find_field o 0 n = Ok (Some (j, d))).
+Proof.
+  intros o n Hwf. rewrite find_field_chain. split.
+  - intros H. apply in_map_iff in H. destruct H as ([k v] & <- & H). cbn [fst].
+    apply fields_order_entry in H; [|exact Hwf].
+    destruct (chain o k) as [|[j d] c]; [discriminate|]. exists j, d. reflexivity.
+  - intros (j & d & H). injection H as H.
+    destruct (resolve (chain_vis (chain o n))) as [v|] eqn:R.
+    + apply fields_order_entry in R; [|exact Hwf]. apply (in_map fst) in R. exact R.
+    + apply resolve_none in R. destruct (chain o n); [discriminate|]. discriminate.
+Qed.
+
+(* ... and the visible ones are exactly those has_visible_field accepts *)
+Theorem fields_order_agree_visible : forall o n, wf_obj o ->
+  (In n (get_visible_fields_order o) <-> has_visible_field o n = Ok true).
+Proof.
+  intros o n Hwf. unfold get_visible_fields_order. rewrite in_visible_iff, visibility_rule. split.
+  - intros (v & H & Hv). apply fields_order_entry in H; [|exact Hwf]. rewrite H.
+    destruct v; try contradiction; reflexivity.
+  - intros H. injection H as H. destruct (resolve (chain_vis (chain o n))) as [v|] eqn:R; [|discriminate].
+    exists v. split; [apply fields_order_entry; assumption|]. intros ->. discriminate.
+Qed.
+
+(* ------------------------------------------------------------------ sorted lists are determined by their entries *)
+
+Lemma sorted_keys_ext : forall (l1 l2 : list (name * vis)),
+  StronglySorted name_lt (map fst l1) -> StronglySorted name_lt (map fst l2) ->
+  (forall n v, In (n, v) l1 <-> In (n, v) l2) -> l1 = l2.
+Proof.
+  induction l1 as [|[k1 v1] t1 IH]; intros l2 H1 H2 Hiff.
+  - destruct l2 as [|[k2 v2] t2]; auto. exfalso. apply (Hiff k2 v2). left. reflexivity.
+  - destruct l2 as [|[k2 v2] t2]; [exfalso; apply (Hiff k1 v1); left; reflexivity|].
+    cbn [map fst] in H1, H2. apply StronglySorted_inv in H1, H2.
+    destruct H1 as [S1 F1], H2 as [S2 F2]. rewrite Forall_forall in F1, F2.
+    assert (Hk : k1 = k2).
+    { destruct (proj1 (Hiff k1 v1) (or_introl eq_refl)) as [E|HI]; [injection E; auto|].
+      destruct (proj2 (Hiff k2 v2) (or_introl eq_refl)) as [E|HJ]; [injection E; auto|].
+      apply (in_map fst) in HI, HJ. cbn [fst] in HI, HJ. apply F2 in HI. apply F1 in HJ.
+      exfalso. exact (name_lt_irrefl _ (name_lt_trans _ _ _ HI HJ)). }
+    subst k2.
+    assert (Hv : v1 = v2).
+    { destruct (proj1 (Hiff k1 v1) (or_introl eq_refl)) as [E|HI]; [injection E; auto|].
+      apply (in_map fst) in HI. cbn [fst] in HI. apply F2 in HI. exfalso. exact (name_lt_irrefl _ HI). }
+    subst v2. f_equal. apply IH; auto. intros n v. split; intros HI.
+    + destruct (proj1 (Hiff n v) (or_intror HI)) as [E|HJ]; auto.
+      injection E as -> ->. apply (in_map fst) in HI. cbn [fst] in HI. apply F1 in HI.
+      exfalso. exact (name_lt_irrefl _ HI).
+    + destruct (proj2 (Hiff n v) (or_intror HI)) as [E|HJ]; auto.
+      injection E as -> ->. apply (in_map fst) in HI. cbn [fst] in HI. apply F2 in HI.
+      exfalso. exact (name_lt_irrefl _ HI).
+Qed.
+
+(* equal chains (up to layer numbering) give equal orders *)
+Lemma fields_order_ext : forall o e k, wf_obj o -> wf_obj e ->
+  (forall n, chain e n = map (shift k) (chain o n)) ->
+  get_fields_order e = get_fields_order o.
+Proof.
+  intros o e k Ho He H. apply sorted_keys_ext; try apply fields_order_sorted.
+  intros n v. rewrite !fields_order_entry by assumption. rewrite H.
+  unfold chain_vis. rewrite map_map. cbn [shift snd]. reflexivity.
+Qed.
+
+(* ------------------------------------------------------------------ results under renumbering of layers *)
+
+Definition res_shift (k : N) (r : res (option (N * fdata))) : res (option (N * fdata)) :=
+  match r with
+  | Ok x => Ok (option_map (shift k) x)
+  | Err e => Err e
+  | Panic s => Panic s
+  | OutOfFuel => OutOfFuel
+  end.
+
+Lemma hd_error_map : forall A B (f : A -> B) l, hd_error (map f l) = option_map f (hd_error l).
+Proof. intros A B f [|x l]; reflexivity. Qed.
+
+Lemma chain_vis_shift : forall k c, chain_vis (map (shift k) c) = chain_vis c.
+Proof. intros k c. unfold chain_vis. rewrite map_map. reflexivity. Qed.
+
+(* a new layer on top: every lookup that starts below it is the old lookup, renumbered *)
+Lemma find_field_under_top : forall o e t, layers e = t :: layers o ->
+  forall i m, find_field e (i + 1) m = res_shift 1 (find_field o i m).
+Proof.
+  intros o e t H i m. rewrite !find_field_spec. rewrite H.
+  replace (N.to_nat (i + 1)) with (S (N.to_nat i)) by lia. cbn [skipn res_shift].
+  rewrite eff_chain_shift, hd_error_map. reflexivity.
+Qed.
+
+(* layers added below: every lookup is unchanged as long as it ends above them *)
+Lemma find_field_chain_shift : forall o e k,
+  (forall n, chain e n = map (shift k) (chain o n)) ->
+  forall n, find_field e 0 n = res_shift k (find_field o 0 n).
+Proof.
+  intros o e k H n. rewrite !find_field_chain, H, hd_error_map. reflexivity.
+Qed.
+
+Lemma has_visible_chain_shift : forall o e k,
+  (forall n, chain e n = map (shift k) (chain o n)) ->
+  forall n, has_visible_field e n = has_visible_field o n.
+Proof.
+  intros o e k H n. rewrite !visibility_rule, H, chain_vis_shift. reflexivity.
+Qed.
+
+(* ------------------------------------------------------------------ {} is an identity *)
+
+Lemma chain_extend_empty_r : forall o n, chain (extend o empty_obj) n = map (shift 1) (chain o n).
+Proof.
+  intros o n. unfold chain. rewrite layers_extend. cbn [layers empty_obj self_layer super_layers app].
+  cbn [eff_chain N.eqb layer_get]. rewrite <- eff_chain_shift. reflexivity.
+Qed.
+
+Lemma chain_extend_empty_l : forall o n, chain (extend empty_obj o) n = chain o n.
+Proof.
+  intros o n. unfold chain. rewrite layers_extend. cbn [layers empty_obj self_layer super_layers].
+  apply eff_chain_app_closed.
+Qed.
+
+Lemma map_shift_0 : forall c, map (shift 0) c = c.
+Proof.
+  induction c as [|[j d] c IH]; cbn [map]; auto. rewrite IH. unfold shift. cbn [fst snd].
+  rewrite N.add_0_r. reflexivity.
+Qed.
+
+Theorem extend_empty_r : forall o, wf_obj o ->
+  let e := extend o empty_obj in
+  (forall n, find_field e 0 n = res_shift 1 (find_field o 0 n)) /\
+  (forall i n, find_field e (i + 1) n = res_shift 1 (find_field o i n)) /\
+  (forall n, has_visible_field e n = has_visible_field o n) /\
+  get_fields_order e = get_fields_order o /\
+  get_visible_fields_order e = get_visible_fields_order o /\
+  obj_length e = obj_length o.
+Proof.
+  intros o Hwf e. pose proof (chain_extend_empty_r o) as Hc. fold e in Hc.
+  assert (He : wf_obj e) by (apply wf_extend; [exact Hwf | apply wf_empty]).
+  assert (Hord : get_fields_order e = get_fields_order o) by (eapply fields_order_ext; eauto).
+  repeat split.
+  - apply find_field_chain_shift. exact Hc.
+  - apply (find_field_under_top o e []). unfold e. rewrite layers_extend. reflexivity.
+  - eapply has_visible_chain_shift. exact Hc.
+  - exact Hord.
+  - unfold get_visible_fields_order. rewrite Hord. reflexivity.
+  - unfold obj_length, get_visible_fields_order. rewrite Hord. reflexivity.
+Qed.
+
+Theorem extend_empty_l : forall o, wf_obj o ->
+  let e := extend empty_obj o in
+  (forall i n, find_field e i n = find_field o i n) /\
+  (forall n, has_visible_field e n = has_visible_field o n) /\
+  get_fields_order e = get_fields_order o /\
+  get_visible_fields_order e = get_visible_fields_order o /\
+  obj_length e = obj_length o.
+Proof.
+  intros o Hwf e. pose proof (chain_extend_empty_l o) as Hc. fold e in Hc.
+  assert (Hc0 : forall n, chain e n = map (shift 0) (chain o n)) by (intros n; rewrite map_shift_0; apply Hc).
+  assert (He : wf_obj e) by (apply wf_extend; [apply wf_empty | exact Hwf]).
+  assert (Hord : get_fields_order e = get_fields_order o) by (eapply fields_order_ext; eauto).
+  repeat split.
+  - intros i n. rewrite !find_field_spec. unfold e. rewrite layers_extend.
+    change (layers empty_obj) with [[] : layer]. f_equal. f_equal.
+    generalize (layers o). intros ls.
+    destruct (Nat.le_gt_cases (N.to_nat i) (length ls)) as [Hle|Hgt].
+    + rewrite skipn_app. replace (N.to_nat i - length ls)%nat with 0%nat by lia.
+      cbn [skipn]. apply eff_chain_app_closed.
+    + rewrite !skipn_all2; auto; [lia | rewrite app_length; cbn [length]; lia].
+  - eapply has_visible_chain_shift. exact Hc0.
+  - exact Hord.
+  - unfold get_visible_fields_order. rewrite Hord. reflexivity.
+  - unfold obj_length, get_visible_fields_order. rewrite Hord. reflexivity.
+Qed.
+
+(* ------------------------------------------------------------------ std.objectRemoveKey *)
+
+Lemma chain_remove_same : forall o n, chain (remove_key o n) n = [].
+Proof.
+  intros o n. unfold chain. rewrite layers_remove_key. unfold marker.
+  cbn [eff_chain N.eqb layer_get]. rewrite name_eqb_refl.
+  rewrite eff_chain_skip, Nat2N.id, skipn_all. reflexivity.
+Qed.
+
+Lemma chain_remove_other : forall o n m, m <> n ->
+  chain (remove_key o n) m = map (shift 1) (chain o m).
+Proof.
+  intros o n m H. unfold chain. rewrite layers_remove_key. unfold marker.
+  cbn [eff_chain N.eqb layer_get]. assert (E : name_eqb n m = false) by (apply name_eqb_neq; congruence).
+  rewrite E. rewrite <- eff_chain_shift. reflexivity.
+Qed.
+
+Theorem remove_key_exact : forall o n,
+  let e := remove_key o n in
+  find_field e 0 n = Ok None /\
+  has_visible_field e n = Ok false /\
+  (forall m, m <> n -> find_field e 0 m = res_shift 1 (find_field o 0 m)) /\
+  (forall m, m <> n -> has_visible_field e m = has_visible_field o m) /\
+  (forall i m, find_field e (i + 1) m = res_shift 1 (find_field o i m)).
+Proof.
+  intros o n e. repeat split.
+  - rewrite find_field_chain. unfold e. rewrite chain_remove_same. reflexivity.
+  - rewrite visibility_rule. unfold e. rewrite chain_remove_same. reflexivity.
+  - intros m H. rewrite !find_field_chain. unfold e. rewrite chain_remove_other by exact H.
+    rewrite hd_error_map. reflexivity.
+  - intros m H. rewrite !visibility_rule. unfold e. rewrite chain_remove_other by exact H.
+    rewrite chain_vis_shift. reflexivity.
+  - apply (find_field_under_top o e (marker o n)). apply layers_remove_key.
+Qed.
+
+Theorem remove_key_order : forall o n m v, wf_obj o ->
+  (In (m, v) (get_fields_order (remove_key o n)) <-> m <> n /\ In (m, v) (get_fields_order o)).
+Proof.
+  intros o n m v Hwf. rewrite !fields_order_entry by (auto using wf_remove_key).
+  destruct (name_eqb m n) eqn:E.
+  - apply name_eqb_eq in E. subst m. rewrite chain_remove_same. cbn. split; [discriminate | intros [H _]; congruence].
+  - apply name_eqb_neq in E. rewrite chain_remove_other by exact E. rewrite chain_vis_shift. tauto.
+Qed.
+
+(* base + std.objectRemoveKey(o, n): the marker hides exactly the layers of o *)
+Lemma chain_extend_remove_same : forall base o n,
+  chain (extend base (remove_key o n)) n =
+  map (shift (1 + N.of_nat (length (layers o)))) (chain base n).
+Proof.
+  intros base o n. unfold chain. rewrite layers_extend, layers_remove_key. unfold marker.
+  cbn [app eff_chain N.eqb layer_get]. rewrite name_eqb_refl.
+  rewrite eff_chain_skip_prefix. rewrite <- eff_chain_shift. f_equal; lia.
+Qed.
+
+Lemma chain_extend_remove_other : forall base o n m, m <> n ->
+  chain (extend base (remove_key o n)) m = map (shift 1) (chain (extend base o) m).
+Proof.
+  intros base o n m H. unfold chain. rewrite !layers_extend, layers_remove_key. unfold marker.
+  cbn [app eff_chain N.eqb layer_get]. assert (E : name_eqb n m = false) by (apply name_eqb_neq; congruence).
+  rewrite E. rewrite <- eff_chain_shift. reflexivity.
+Qed.
+
+Theorem extend_then_remove_hides_only_inner : forall base o n,
+  let e := extend base (remove_key o n) in
+  find_field e 0 n = res_shift (1 + N.of_nat (length (layers o))) (find_field base 0 n) /\
+  has_visible_field e n = has_visible_field base n /\
+  (forall m, m <> n -> find_field e 0 m = res_shift 1 (find_field (extend base o) 0 m)) /\
+  (forall m, m <> n -> has_visible_field e m = has_visible_field (extend base o) m).
+Proof.
+  intros base o n e. repeat split.
+  - rewrite !find_field_chain. unfold e. rewrite chain_extend_remove_same, hd_error_map. reflexivity.
+  - rewrite !visibility_rule. unfold e. rewrite chain_extend_remove_same, chain_vis_shift. reflexivity.
+  - intros m H. rewrite !find_field_chain. unfold e. rewrite chain_extend_remove_other by exact H.
+    rewrite hd_error_map. reflexivity.
+  - intros m H. rewrite !visibility_rule. unfold e. rewrite chain_extend_remove_other by exact H.
+    rewrite chain_vis_shift. reflexivity.
+Qed.
+
+(* std.objectRemoveKey(o, n) + { n: ... }: the re-added field stands alone; nothing of
+   the removed object's field (in particular not its visibility) shows through *)
+Definition lit (l : layer) : obj := {| self_layer := l; super_layers := [] |}.
+
+Lemma chain_remove_then_extend : forall o n l d, layer_get l n = Some (Normal d) ->
+  chain (extend (remove_key o n) (lit l)) n = [(0, d)].
+Proof.
+  intros o n l d H. unfold chain. rewrite layers_extend, layers_remove_key. unfold marker.
+  change (layers (lit l)) with [l]. generalize (layers o). intros ls.
+  cbn [app eff_chain N.eqb]. rewrite H.
+  cbn [layer_get]. rewrite name_eqb_refl. f_equal.
+  rewrite eff_chain_skip, Nat2N.id, skipn_all. reflexivity.
+Qed.
+
+Theorem remove_then_extend : forall o n l d, wf_obj o -> wf_layer l ->
+  layer_get l n = Some (Normal d) ->
+  let e := extend (remove_key o n) (lit l) in
+  find_field e 0 n = Ok (Some (0, d)) /\
+  has_visible_field e n = Ok (negb (vis_eqb (f_vis d) Hidden)) /\
+  In (n, f_vis d) (get_fields_order e) /\
+  (In n (get_visible_fields_order e) <-> f_vis d <> Hidden).
+Proof.
+  intros o n l d Ho Hl H e.
+  assert (Hc : chain e n = [(0, d)]) by (apply chain_remove_then_extend; exact H).
+  assert (He : wf_obj e).
+  { apply wf_extend; [apply wf_remove_key; exact Ho|]. unfold wf_obj, lit, layers. cbn. constructor; auto. }
+  repeat split.
+  - rewrite find_field_chain, Hc. reflexivity.
+  - rewrite visibility_rule, Hc. cbn. destruct (f_vis d); reflexivity.
+  - apply fields_order_entry; [exact He|]. rewrite Hc. cbn. destruct (f_vis d); reflexivity.
+  - intros HI. apply fields_order_agree_visible in HI; [|exact He].
+    rewrite visibility_rule, Hc in HI. cbn in HI. intros E. rewrite E in HI. discriminate.
+  - intros Hv. apply fields_order_agree_visible; [exact He|]. rewrite visibility_rule, Hc. cbn.
+    destruct (f_vis d); try reflexivity. contradiction.
+Qed.
+
+(* ------------------------------------------------------------------ extension: what each side sees *)
+
+(* a + b: lookups that start inside a (super, seen from a's layers) are a's own lookups *)
+Theorem extend_super_of_left : forall a b i n,
+  find_field (extend a b) (i + N.of_nat (length (layers b))) n =
+  res_shift (N.of_nat (length (layers b))) (find_field a i n).
+Proof.
+  intros a b i n. rewrite !find_field_spec, layers_extend.
+  replace (N.to_nat (i + N.of_nat (length (layers b)))) with (length (layers b) + N.to_nat i)%nat by lia.
+  rewrite <- skipn_skipn'. rewrite skipn_app, skipn_all, Nat.sub_diag. cbn [app skipn res_shift].
+  rewrite eff_chain_shift, hd_error_map. reflexivity.
+Qed.
+
+(* self inside any layer of a + b is the whole object: a field defined by b's top
+   layer is what every self.g finds, whatever a defines *)
+Theorem self_sees_override : forall a b g d,
+  layer_get (self_layer b) g = Some (Normal d) ->
+  find_field (extend a b) 0 g = Ok (Some (0, d)).
+Proof.
+  intros a b g d H. unfold find_field. cbn [N.eqb extend self_layer]. rewrite H. reflexivity.
+Qed.
+
+Theorem self_is_final : forall fuel o vs i j g,
+  eval_body fuel o vs i (BSelf g) = eval_body fuel o vs j (BSelf g).
+Proof. intros [|fuel] o vs i j g; reflexivity. Qed.
+
+(* default-visibility override keeps the inherited visibility *)
+Theorem default_override_keeps_inherited : forall o l n d,
+  layer_get l n = Some (Normal d) -> f_vis d = Default ->
+  has_visible_field (extend o (lit l)) n =
+  match find_field o 0 n with
+  | Ok (Some _) => has_visible_field o n
+  | _ => Ok true
+  end.
+Proof.
+  intros o l n d H Hd. rewrite find_field_chain, !visibility_rule.
+  unfold chain at 1. rewrite layers_extend. change (layers (lit l)) with [l].
+  cbn [app eff_chain N.eqb]. rewrite H. cbn [chain_vis map snd]. rewrite Hd, resolve_cons.
+  rewrite (eff_chain_shift (layers o) 0 0 1 n). fold (chain o n).
+  change (map (fun p : N * fdata => f_vis (snd p)) (map (shift 1) (chain o n))) with (chain_vis (map (shift 1) (chain o n))).
+  rewrite chain_vis_shift.
+  destruct (chain o n) as [|p c] eqn:E; cbn [hd_error].
+  - reflexivity.
+  - destruct (resolve (chain_vis (p :: c))) eqn:R; auto.
+    apply resolve_none in R. discriminate.
+Qed.
+
+(* ------------------------------------------------------------------ no panic, no fuel exhaustion *)
+
+Theorem no_panic_no_fuel : forall o i n,
+  (exists r, find_field o i n = Ok r) /\ (exists b, has_field o i n = Ok b) /\
+  (exists b, has_visible_field o n = Ok b).
+Proof.
+  intros o i n. repeat split.
+  - rewrite find_field_spec. eexists. reflexivity.
+  - rewrite has_field_spec. eexists. reflexivity.
+  - rewrite visibility_rule. eexists. reflexivity.
+Qed.
+
+(* ------------------------------------------------------------------ observers agree *)
+
+Lemma eval_fields_keys : forall o ns l, eval_fields o ns = Ok l -> map fst l = ns.
+Proof.
+  induction ns as [|n r IH]; intros l H; cbn [eval_fields] in H.
+  - injection H as <-. reflexivity.
+  - destruct (eval_field o n) as [v| | |]; cbn [obind] in H; try discriminate.
+    destruct (eval_fields o r) as [rest| | |]; cbn [obind] in H; try discriminate.
+    injection H as <-. cbn [map fst]. f_equal. apply IH. reflexivity.
+Qed.
+
+Theorem observers_agree : forall o n, wf_obj o ->
+  (In n (map fst (get_fields_order o)) <-> has_field o 0 n = Ok true) /\
+  (In n (get_visible_fields_order o) <-> has_visible_field o n = Ok true) /\
+  (In n (get_visible_fields_order o) -> In n (map fst (get_fields_order o))) /\
+  obj_length o = N.of_nat (length (get_visible_fields_order o)) /\
+  (forall l, manifest o = Ok l -> map fst l = get_visible_fields_order o) /\
+  (has_field o 0 n = Ok false -> eval_field o n = Err EUnknownField).
+Proof.
+  intros o n Hwf. repeat split.
+  - intros H. apply fields_order_agree in H; [|exact Hwf]. destruct H as (j & d & H).
+    unfold has_field. rewrite H. reflexivity.
+  - intros H. apply fields_order_agree; [exact Hwf|]. unfold has_field in H.
+    destruct (find_field o 0 n) as [[[j d]|]| | |]; cbn [obind] in H; try discriminate. eauto.
+  - apply fields_order_agree_visible. exact Hwf.
+  - apply fields_order_agree_visible. exact Hwf.
+  - unfold get_visible_fields_order. intros H. apply in_visible_iff in H. destruct H as (v & H & _).
+    apply (in_map fst) in H. exact H.
+  - unfold manifest. apply eval_fields_keys.
+  - intros H. unfold has_field in H. unfold eval_field.
+    destruct (find_field o 0 n) as [[[j d]|]| | |]; cbn [obind] in *; try discriminate. reflexivity.
+Qed.
+
+(* ------------------------------------------------------------------ the state machine as first found *)
+
+Module Old.
+  (* enum FieldState { Normal(Visibility), Removed(usize) } with the Occupied arm
+       Normal(Default) => if let ObjectField::Normal(f) = f { *entry = Normal(f.visibility) }
+     i.e. a Removed marker met below a default-visibility field was ignored *)
+  Definition merge_entry (layer_i : N) (m : btmap) (nf : name * field) : btmap :=
+    let '(n, f) := nf in
+    match bt_get m n with
+    | None => bt_set m n (field_to_state f layer_i)
+    | Some (SNormal Default _) =>
+        match f with
+        | Normal d => bt_set m n (SNormal (f_vis d) 0)
+        | Removed _ => m
+        end
+    | Some (SNormal _ _) => m
+    | Some (SRemoved removed_layer_i) =>
+        if removed_layer_i <? layer_i then bt_set m n (field_to_state f layer_i) else m
+    end.
+
+  Fixpoint merge_layers (m : btmap) (layer_i : N) (ls : list layer) : btmap :=
+    match ls with
+    | [] => m
+    | l :: r => merge_layers (fold_left (merge_entry layer_i) l m) (layer_i + 1) r
+    end.
+
+  Definition get_fields_order (o : obj) : list (name * vis) :=
+    filter_map state_entry
+      (merge_layers (fold_left self_entry (self_layer o) []) 1 (super_layers o)).
+
+  Definition get_visible_fields_order (o : obj) : list name :=
+    filter_map (fun nv : name * vis => match snd nv with Hidden => None | _ => Some (fst nv) end)
+               (get_fields_order o).
+End Old.
+
 (* std.objectRemoveKey({a:: 1}, "a") + {a: 2} *)
 Definition nm_a : name := [97].
 Definition witness_obj : obj :=
-  extend (remove_key {| self_layer := [(nm_a, Normal {| f_vis := Hidden; f_plus := false; f_body := BNum 1 |})];
-                        super_layers := [] |} nm_a)
-         {| self_layer := [(nm_a, Normal {| f_vis := Default; f_plus := false; f_body := BNum 2 |})];
-            super_layers := [] |}.
+  extend (remove_key (lit [(nm_a, Normal {| f_vis := Hidden; f_plus := false; f_body := BNum 1 |})]) nm_a)
+         (lit [(nm_a, Normal {| f_vis := Default; f_plus := false; f_body := BNum 2 |})]).
 
-Lemma fields_order_agree_visible_refuted :
-  exists o n, has_visible_field o n = Ok true /\ ~ In n (get_visible_fields_order o).
+Lemma witness_wf : wf_obj witness_obj.
 Proof.
-  exists witness_obj, nm_a. split; [vm_compute; reflexivity | vm_compute; tauto].
+  unfold wf_obj, wf_layer. vm_compute. repeat constructor; intros H; cbn in H; tauto.
+Qed.
+
+Lemma prefix_defect_witness :
+  has_visible_field witness_obj nm_a = Ok true /\
+  ~ In nm_a (Old.get_visible_fields_order witness_obj) /\
+  In nm_a (get_visible_fields_order witness_obj) /\
+  manifest witness_obj = Ok [(nm_a, VNum 2)].
+Proof.
+  split; [vm_compute; reflexivity|]. split; [vm_compute; intros []|].
+  split; [vm_compute; left; reflexivity | vm_compute; reflexivity].
+Qed.
+
+Theorem fields_order_sorted_nodup : forall o,
+  StronglySorted name_lt (map fst (get_fields_order o)) /\
+  NoDup (map fst (get_fields_order o)) /\
+  StronglySorted name_lt (get_visible_fields_order o) /\
+  NoDup (get_visible_fields_order o).
+Proof.
+  intros o. pose proof (fields_order_sorted o). pose proof (visible_fields_order_sorted o).
+  repeat split; auto using sorted_nodup.
+Qed.
+
+(* a worked object: {a:: 1, b: 2} + std.objectRemoveKey({a::: 3, c::: self.a}, "a") + {a+: 4, b:: super.b} *)
+Definition na : name := [97].
+Definition nb : name := [98].
+Definition nc : name := [99].
+Definition mkf (v : vis) (p : bool) (b : body) : field := Normal {| f_vis := v; f_plus := p; f_body := b |}.
+Definition example_obj : obj :=
+  extend (extend (lit [(na, mkf Hidden false (BNum 1)); (nb, mkf Default false (BNum 2))])
+                 (remove_key (lit [(na, mkf ForceVisible false (BNum 3)); (nc, mkf ForceVisible false (BSelf na))]) na))
+         (lit [(na, mkf Default true (BNum 4)); (nb, mkf Hidden false (BSuper nb))]).
+
+Lemma example_wf : wf_obj example_obj.
+Proof.
+  unfold wf_obj, wf_layer. vm_compute.
+  repeat constructor; intros H; cbn in H; repeat (destruct H as [H|H]; try discriminate); auto.
 Qed.
